@@ -283,6 +283,36 @@ func c06Case(c *core.Ctx, id string) {
 			}
 		}
 	}
+	// Reload() of a loaded project is a load too: each reachable module executes exactly once more, same targets and flags
+	if !cyclic && res.LoadErr == "" && !rendezvous {
+		lv := &pj.Live{}
+		lv.Build(pj.BuildReq{Root: s.Root})
+		for round := 0; round < 2; round++ {
+			pj.ResetTicks(s.Root)
+			r2 := lv.Build(pj.BuildReq{Root: s.Root})
+			t2 := pj.TicksFor(s.Root)
+			c.Count("reloads_of_a_loaded_project", 1)
+			if r2.LoadErr != "" {
+				viol("acyclic-load-graph-fails-to-load", map[string]any{"on": "Reload", "reload_error": r2.LoadErr})
+				break
+			}
+			for i := 0; i < g.n(); i++ {
+				l := g.moduleLabel(i)
+				if want := map[bool]int{true: 1, false: 0}[reach[i]]; t2[l] != want {
+					viol("reachable-module-not-executed-exactly-once", map[string]any{"on": "Reload", "module": l, "executions": t2[l], "expected": want})
+				}
+			}
+			a, b := append([]string{}, res.Targets...), append([]string{}, r2.Targets...)
+			sort.Strings(a)
+			sort.Strings(b)
+			fa, fb := append([]string{}, res.Flags...), append([]string{}, r2.Flags...)
+			sort.Strings(fa)
+			sort.Strings(fb)
+			if fmt.Sprint(a) != fmt.Sprint(b) || fmt.Sprint(fa) != fmt.Sprint(fb) {
+				viol("targets-after-load-differ", map[string]any{"on": "Reload", "targets": b, "expected": a, "flags": fb, "expected_flags": fa})
+			}
+		}
+	}
 	shared := 0
 	indeg := make([]int, g.n())
 	for _, ls := range g.loads {
